@@ -19,7 +19,7 @@ func init() {
 			"creation to any return; (R2) every file name derives from a uuid.NewV4() evaluated in that call, output files start empty, the " +
 			"context file holds the rendered contexts; (R3) each path is exported under its documented variable name, the same paths are " +
 			"read back after the run, the process runs in the hook's directory with the hook as executable; (R4) a non-zero exit and any " +
-			"unreadable/unparsable output is returned as an error; (R5) Hook.Run is started only from handleRunHook. NOT decided: what the " +
+			"unreadable/unparsable output is returned as an error; (R5) Hook.Run is started only from handleRunHook. The per-execution variables come after anything inherited from the operator's environment (R3). NOT decided: what the " +
 			"child process actually sees (OS), concurrent executions beyond name uniqueness.",
 		Run: runC12,
 	})
@@ -321,11 +321,17 @@ func runC12(c *eng.Ctx) {
 				if !isS || sel.Sel.Name != "Env" {
 					return true
 				}
-				if !eng.UsesObj(ninfo, as.Rhs[0], envsPrm, false) {
+				rhs := as.Rhs[0]
+				if lv, isV := eng.SelObj(ninfo, rhs).(*types.Var); isV && !lv.IsField() {
+					if es := eng.AssignedExprs(ninfo, nf.Decl.Body, lv); len(es) == 1 {
+						rhs = es[0]
+					}
+				}
+				if !eng.UsesObj(ninfo, rhs, envsPrm, false) {
 					return true
 				}
 				nstores++
-				ap := builtinCall(ninfo, as.Rhs[0], "append")
+				ap := builtinCall(ninfo, rhs, "append")
 				if ap == nil || len(ap.Args) != 2 || !ap.Ellipsis.IsValid() || eng.SelObj(ninfo, ap.Args[1]) != types.Object(envsPrm) || eng.UsesObj(ninfo, ap.Args[0], envsPrm, false) {
 					okTail = false
 				}
